@@ -336,6 +336,9 @@ func (p *c09Prop) Run(ci interface{}) interface{} {
 	if c.Kind == "acked" {
 		return p.runAcked(c)
 	}
+	if c.Kind == "nlresub" {
+		return p.runNLResub(c)
+	}
 	if c.Kind == "params" {
 		return p.runParams(c)
 	}
@@ -841,6 +844,59 @@ func (p *c09Prop) runParams(c *c09Case) interface{} {
 // acked: K rounds of "Retain(m) has returned, then Subscribe": the operations are issued one after the other by ONE
 // caller, so the order consistent with their acknowledgements is the order of the calls - the subscription is handed
 // the retained message
+// nlresub: the overlap option is on; a session holds a No-Local subscription, publishes to it itself (the subscription is
+// passed over), and subscribes to the same filter again: K rounds, every SUBSCRIBE must be acknowledged (no operation of
+// the index may leave something locked behind it)
+func (p *c09Prop) runNLResub(c *c09Case) interface{} {
+	obs := &c09Obs{}
+	m := metrics.New()
+	cfg := topicsTypes.NewMemConfig()
+	cfg.MetricsPackets = m.Packets()
+	cfg.MetricsSubs = m.Subs()
+	cfg.OverlappingSubscriptions = true
+	prov, err := memlockfree.NewMemProvider(cfg)
+	if err != nil {
+		obs.Err = err.Error()
+		return obs
+	}
+	var mu sync.Mutex
+	var recv [][2]int
+	lost := 0
+	for it := 0; it < c.K && lost == 0; it++ {
+		topic := fmt.Sprintf("nl/%d", it%7)
+		st := &hashGate{id: 500 + it%3, mu: &mu, recv: &recv}
+		nl := topicsTypes.SubscribeReq{Filter: topic, S: st, Params: vlsubscriber.SubscriptionParams{Ops: mqttp.SubscriptionOptions(byte(it%3) | 0x04 | 0x20)}}
+		plain := topicsTypes.SubscribeReq{Filter: "nl/#", S: st, Params: vlsubscriber.SubscriptionParams{Ops: mqttp.SubscriptionOptions(0x20)}}
+		step := func(f func()) bool {
+			done := make(chan struct{})
+			go func() { f(); close(done) }()
+			select {
+			case <-done:
+				return true
+			case <-time.After(3 * time.Second):
+				return false
+			}
+		}
+		ok := step(func() { _ = prov.Subscribe(plain) }) && step(func() { _ = prov.Subscribe(nl) })
+		if ok {
+			pm := mqttp.NewPublish(mqttp.ProtocolV50)
+			_ = pm.Set(topic, []byte{0, 1}, 0, false, false)
+			pm.SetPublishID(st.Hash())
+			_ = prov.Publish(pm)
+			time.Sleep(200 * time.Microsecond)
+			ok = step(func() { _ = prov.Subscribe(nl) }) && step(func() { _ = prov.UnSubscribe(topicsTypes.UnSubscribeReq{Filter: topic, S: st}) })
+		}
+		if !ok {
+			lost++
+		}
+	}
+	if lost == 0 {
+		_ = prov.Shutdown()
+	}
+	obs.Lost = &lost
+	return obs
+}
+
 func (p *c09Prop) runAcked(c *c09Case) interface{} {
 	obs := &c09Obs{}
 	e, err := newC09Env(nil)
@@ -979,6 +1035,12 @@ func (p *c09Prop) Coq(ci interface{}, oi interface{}) string {
 			return "(mkCase9 [] false)"
 		}
 		return fmt.Sprintf("(mkCase9 [HSweep %d %d] %s)", c.K, *o.Lost, cBool(o.Err == ""))
+	}
+	if c.Kind == "nlresub" {
+		if o.Lost == nil {
+			return "(mkCase9 [] false)"
+		}
+		return fmt.Sprintf("(mkCase9 [HAcked %d %d] %s)", c.K, *o.Lost, cBool(o.Err == ""))
 	}
 	if c.Kind == "acked" {
 		if o.Lost == nil {
